@@ -96,10 +96,10 @@ def main():
         "setup_cmd": "./check build",
         "hooks": {
             "guard": "verif",
-            "enable": "go build tag `verif` (go test -tags verif); no hook exists in /repo at this commit: every seam used is an existing interface or the database/sql driver boundary",
+            "enable": "go build tag `verif` (./check builds the simulator with go1.26.8 test -c -tags verif). One hook exists: internal/replication/mutex_verif.go gives the replication Manager a channel-based lock (a waiter is durably blocked for testing/synctest, which a sync.Mutex waiter is not); without the tag mutex_default.go aliases the type to sync.Mutex, so the shipped build is unchanged. The hook commit adds those two files and rewrites one line of manager.go (the field type `mu sync.Mutex` -> `mu managerMutex`). Every other seam used is an existing interface or the database/sql driver boundary.",
             "baseline_off_cmd": "cd /repo && go test -vet=off -count=1 ./...",
-            "source_commits": [],
-            "add_only": True,
+            "source_commits": ["8bc0fe5"],
+            "add_only": False,
         },
         "engines": [{
             "name": "ledgersim", "path": "/verif/sim",
